@@ -23,6 +23,13 @@ for d in sorted(glob.glob(os.path.join(here, 'seeded', 'C*-*'))):
             summary = re.findall(r'^property=.*$', txt, re.M)
             checks[tier] = {"detected": bool(viol), "violations": [{"harness": h, "label": l} for h, l in viol][:6],
                             "summary": summary[-1] if summary else "", "inconclusive": len(re.findall(r'^INCONCLUSIVE', txt, re.M))}
+    for lp in sorted(glob.glob(os.path.join(d, 'check_quick_C*.log'))):
+        other = os.path.basename(lp)[len('check_quick_'):-4]
+        txt = open(lp).read()
+        viol = re.findall(r'^VIOLATION .*harness=(\S+) label="([^"]*)"', txt, re.M)
+        checks['quick_by_' + other] = {"detected": bool(viol), "violations": [{"harness": h, "label": l} for h, l in viol][:6],
+                                       "summary": (re.findall(r'^property=.*$', txt, re.M) or [""])[-1], "inconclusive": 0,
+                                       "note": "the changed function belongs to the kernel of check %s" % other}
     meta = {
         "property": pid,
         "seed": name,
@@ -38,7 +45,7 @@ for d in sorted(glob.glob(os.path.join(here, 'seeded', 'C*-*'))):
             "packages_tested": kv.get("pkgs", ""),
             "demo": kv.get("run", ""), "demo_location": kv.get("place", ""),
         },
-        "my_check": {"what_i_ran": "bin/seedcheck.sh %s %s [tier]  (git -C /repo apply patch.diff; bin/vcheck %s; git -C /repo checkout -- .)" % (pid, k, pid), **checks},
+        "my_check": {"what_i_ran": "bin/seedcheck.sh %s %s [tier]  (git -C /repo apply patch.diff; bin/vcheck %s; git -C /repo checkout -- .) or, while /repo was busy with another run, bin/seedcheck_wt.sh %s %s (same engine and harnesses against a scratch worktree of /repo with the patch applied, VP_REPO_DIR)" % (pid, k, pid, pid, k), **checks},
         "agent_report": agent,
     }
     json.dump(meta, open(os.path.join(d, 'meta.json'), 'w'), indent=1)
